@@ -29,7 +29,7 @@ theorem enter_spec {α} {m : P α} {Qp : α → Prop} (h : T src Tr m (fun a _ =
   have := h s0 hi0 trivial
   show match enter m s with
     | (.ok a, s') => Inv src s' ∧ Qp a
-    | (.error e, s') => isPanic e = false ∧ Inv0 src s'
+    | (.error e, s') => ErrOK e s' ∧ Inv0 src s'
   unfold enter
   simp only
   cases hm : m s0 with
@@ -39,7 +39,7 @@ theorem enter_spec {α} {m : P α} {Qp : α → Prop} (h : T src Tr m (fun a _ =
     | error e => exact ⟨this.1, this.2.congr rfl rfl⟩
     | ok a => exact ⟨this.1.congr rfl rfl rfl, this.2⟩
 
-theorem fuel_spec {α} {Q : α → PState → Prop} : T src Tr (P.throw .fuel : P α) Q := T.throw _ rfl
+theorem fuel_spec {α} {Q : α → PState → Prop} : T src Tr (P.throw .fuel : P α) Q := T.throw _ (fun _ _ => trivial)
 
 instance tblOK_bot : TblOK src Tbl.bot where
   parseFuncDecl := fuel_spec
@@ -181,7 +181,7 @@ theorem nextTail_spec (tr : Option Nat) (pt : Option (Nat × Token)) :
 theorem next_establishes (s : PState) (hs : Inv0 src s) :
     match next s with
     | (.ok _, s') => Inv src s'
-    | (.error e, s') => isPanic e = false ∧ Inv0 src s' := by
+    | (.error e, s') => ErrOK e s' ∧ Inv0 src s' := by
   rw [next_eq]
   let tr : Option Nat := if s.started then some (lineOfTable s.scan.lines s.scan.pos) else none
   let s1 : PState := { s with started := true }
@@ -195,7 +195,7 @@ theorem next_establishes (s : PState) (hs : Inv0 src s) :
   have h1 := scanNext_establishes (src := src) s1 (hs.congr rfl rfl)
   show match (Bind.bind scanNext (nextTail tr)) s1 with
     | (.ok _, s') => Inv src s'
-    | (.error e, s') => isPanic e = false ∧ Inv0 src s'
+    | (.error e, s') => ErrOK e s' ∧ Inv0 src s'
   simp only [Bind.bind]
   cases hsn : scanNext s1 with
   | mk r s2 =>
@@ -219,7 +219,7 @@ theorem entry {α} (k : P α) {Q : α → PState → Prop} (hk : T src Tr k Q) (
         if !(← P.get).started then next
         k : P α) s with
     | (.ok a, s') => Inv src s' ∧ Q a s'
-    | (.error e, s') => isPanic e = false ∧ Inv0 src s' := by
+    | (.error e, s') => ErrOK e s' ∧ Inv0 src s' := by
   have e : (do
       if !(← P.get).started then next
       k : P α) s = (next >>= fun _ => k) s := by
@@ -228,7 +228,7 @@ theorem entry {α} (k : P α) {Q : α → PState → Prop} (hk : T src Tr k Q) (
   have h1 := next_establishes (src := src) s hs
   show match (Bind.bind next fun _ => k) s with
     | (.ok a, s') => Inv src s' ∧ Q a s'
-    | (.error e, s') => isPanic e = false ∧ Inv0 src s'
+    | (.error e, s') => ErrOK e s' ∧ Inv0 src s'
   simp only [Bind.bind]
   cases hn : next s with
   | mk r s2 =>
@@ -245,13 +245,13 @@ variable {r : Tbl} [hr : TblOK src r]
 theorem parseFile_imports_spec : ∀ fuel acc, T src Tr (parseFile.imports fuel acc) (fun _ _ => True) := by
   intro fuel
   induction fuel with
-  | zero => intro acc; unfold parseFile.imports; exact T.throw _ rfl
+  | zero => intro acc; unfold parseFile.imports; exact T.throw _ (fun _ _ => trivial)
   | succ n ih => intro acc; unfold parseFile.imports; hloop ih
 
 theorem parseFile_decls_spec : ∀ fuel acc, T src Tr (parseFile.decls r fuel acc) (fun _ _ => True) := by
   intro fuel
   induction fuel with
-  | zero => intro acc; unfold parseFile.decls; exact T.throw _ rfl
+  | zero => intro acc; unfold parseFile.decls; exact T.throw _ (fun _ _ => trivial)
   | succ n ih => intro acc; unfold parseFile.decls; hloop ih
 
 /-- the comment list as `File::comments` lists it: strictly increasing offsets, so every comment at most
@@ -312,10 +312,10 @@ def NoPanic {α} (r : Except PErr α) : Prop := ∀ site, r ≠ .error (.panic s
 theorem noPanic_of {α} {r : Except PErr α} {s : PState} {G : α → PState → Prop} {B : PErr → PState → Prop}
     (h : match (r, s) with
       | (.ok a, s') => G a s'
-      | (.error e, s') => isPanic e = false ∧ B e s') : NoPanic r := by
+      | (.error e, s') => ErrOK e s' ∧ B e s') : NoPanic r := by
   intro site hr
   subst hr
-  exact absurd h.1 (by simp [isPanic])
+  exact absurd (ErrOK.not_panic h.1) (by simp [isPanic])
 
 /-- **`parse_file` / `parse_source` never panics**: for every text, build profile and fuel -/
 theorem parseFile_no_panic (text : String) (profile : Profile) (n : Nat) :
@@ -339,6 +339,22 @@ theorem parseFile_comments_sorted (text : String) (profile : Profile) (n : Nat) 
     (initState_inv0 text profile) rfl
   rw [← parseFile_eq, h] at this
   exact this.2
+
+/-- **C16, whole parser: every error is an error value that points at a place.**  Whenever `parse_file`
+    rejects a text (for a reason other than the model's fuel), the error carries the (line, column) that
+    `line_info` computes for an offset on the line table as the scanner left it — for an unexpected-token
+    error, the offset of that token -/
+theorem parseFile_error_located (text : String) (profile : Profile) (n : Nat) (e : PErr) (s' : PState)
+    (h : parseFile (tbl n) (initState text profile) = (.error e, s')) : ErrOK e s' := by
+  have hk := @parseFileRest_spec text.toList.toArray (tbl n) (tblOK n)
+  have := entry (src := text.toList.toArray) (parseFileRest (tbl n)) hk (initState text profile)
+    (initState_inv0 text profile) rfl
+  rw [← parseFile_eq, h] at this
+  exact this.1
+
+theorem runFile_error_located (text : String) (profile : Profile) (e : PErr) (s' : PState)
+    (h : runFile text profile = (.error e, s')) : ErrOK e s' :=
+  parseFile_error_located text profile _ e s' h
 
 theorem runFile_comments_sorted (text : String) (profile : Profile) (f : File) (s' : PState)
     (h : runFile text profile = (.ok f, s')) : CommentsSorted f :=
